@@ -63,7 +63,7 @@ func (c c07) Run(ctx *core.Ctx) error {
 			cases = append(cases, core.J(c07Case{Prefix: []walOp{op}, Len: l}))
 		}
 	}
-	ctx.Ev.Rule = "every program of Append(r)/AppendSync(r)/Rotate up to the length bound, r in {empty, a, 10 bytes, 100 bytes (> small size limits), 5000 bytes (> write buffer)}, x maximum file size {1, 24, 64, default} x write buffer {16, 4096}, in an empty directory; after Close a fresh replayer must deliver exactly the appended list in order; also the file count/ordering on disk is checked against the rotation rule. distinct = (program, max size, buffer); non-trivial = at least one rotation (forced or by size) and two records"
+	ctx.Ev.Rule = "every program of Append(r)/AppendSync(r)/Rotate up to the length bound, r in {empty, a, 10 bytes, 100 bytes (> small size limits), 5000 bytes (> write buffer)}, x maximum file size {1, 24, 64, default} x write buffer {16, 4096}, in an empty directory; after Close a fresh replayer must deliver exactly the appended list in order; also the file count/ordering on disk is checked against the rotation rule. distinct = (program, max size, buffer); non-trivial = at least one rotation (forced or by size) and two records; before every replay through the open handle the same object runs a replay that its consumer aborts at the first record"
 	ctx.Ev.Bounds["max_program_length"] = maxLen
 	ctx.Ev.Assume = []string{"functional half: no crashes; kill-at-every-syscall-boundary is the crash half of this check"}
 	rs := ctx.Pmap(cases)
@@ -202,6 +202,9 @@ func (c c07) runProgram(dir string, prog []walOp, max uint64, buf int, r *core.R
 		}
 		// the log handle replays itself after every step (the same object again and again, across rotations): it must
 		// deliver everything appended so far, each time
+		// ... also after a replay that its consumer aborted (the callback refuses the first record): whatever that replay
+		// returns, it must not change what the next one delivers
+		log.Replay(func(rec []byte) error { return fmt.Errorf("consumer refuses the record") })
 		var sofar [][]byte
 		err = log.Replay(func(rec []byte) error {
 			sofar = append(sofar, append([]byte{}, rec...))
